@@ -220,7 +220,15 @@ func (its *WiredDatatype) updateStateOfDatatype(
 		}
 
 		its.state = model.StateOfDatatype_SUBSCRIBED
+		adopted := its.id != ppp.DUID || ppp.GetPushPullPackOption().HasSubscribeBit()
 		its.id = ppp.DUID
+		if adopted {
+			// the rollback point was taken before the datatype adopted the identifier (and, after
+			// SubscribeOrCreate, the operation id) of the subscription: a rollback would bring the old ones back
+			if rErr := its.ResetTransaction(); rErr != nil {
+				return oldState, its.state, rErr
+			}
+		}
 
 		err = its.wire.OnChangeDatatypeState(its.Datatype, its.state)
 	case model.StateOfDatatype_SUBSCRIBED:
